@@ -376,6 +376,21 @@ Proof.
   rewrite (chunks_from k e chunks (PHeader 0) []) by apply (init_blocked k). reflexivity.
 Qed.
 
+(* pauses_irrelevant: time does not exist in the model; a quiet period between two chunks is at
+   most an empty chunk (the loop is woken and finds nothing new), and empty chunks - any number,
+   anywhere - change nothing.  This is the clause the quiet-period cases of the correspondence
+   run check on the real loops (virtual clock advanced by an hour between chunks). *)
+Theorem pauses_irrelevant k e chunks :
+  run_chunks k e chunks = run_chunks k e (filter (fun c => negb (is_nil c)) chunks).
+Proof.
+  rewrite !chunk_independence. f_equal.
+  induction chunks as [|c cs IH]; [reflexivity|].
+  cbn [filter concat]. destruct c as [|x c]; cbn [is_nil negb concat app]; rewrite IH; reflexivity.
+Qed.
+
+Corollary pause_insertion k e c1 c2 : run_chunks k e (c1 ++ [] :: c2) = run_chunks k e (c1 ++ c2).
+Proof. rewrite !chunk_independence, !concat_app. reflexivity. Qed.
+
 (* the stream with the end of input known from the start = run until blocked, then learn of the end *)
 Theorem eof_late k p buf : run k true (p, buf) = resume k true [] (run k false (p, buf)).
 Proof. rewrite <- (run_app k true p buf []). rewrite app_nil_r. reflexivity. Qed.
